@@ -61,7 +61,9 @@ Clauses(e) ==
      << "C02.listed_means_written", IsRepair(e) => e.listed_ok >>,
      << "C02.nothing_else_changed", e.outside = << >> >>,
      << "C02.create_touches_only_archive",
-        e.op = "create" => (e.created_unexpected = << >> /\ e.changed_by_create = << >> /\ e.created # << >>) >>,
+        (e.op = "create" /\ e.res.err = "") => (e.created_unexpected = << >> /\ e.changed_by_create = << >> /\ e.created # << >>) >>,
+     \* the premise of the round trip: Create accepts every legitimate set (the drivers generate no other)
+     << "C04.create_accepts_legitimate_set", e.op = "create" => e.res.err = "" >>,
      << "C02.verify_modifies_nothing", IsVerify(e) => (e.writes = << >> /\ e.outside = << >>) >>,
      << "C14.success_is_fixpoint",
         (IsRepair(e) /\ e.res.err = "") =>
